@@ -319,6 +319,15 @@ impl RuntimeData {
             }
         }
 
+        // protected objects are in use by native code: whatever they refer to must survive as well
+        for obj in self.object_list.iter_mut() {
+            unsafe {
+                let t = obj.as_mut();
+                if matches!(t.marker, GcMarker::Protected) {
+                    progress_tracker.push(t);
+                }
+            }
+        }
         // a closure that is being executed may be referenced by its call frame only
         for frame in self.call_stack.iter() {
             if !frame.closure.is_null() {
